@@ -7,11 +7,12 @@ CHECKS="C01 C02 C03 C04 C05 C06 C08 C09 C10 C11 C12 C13 C15 C16 C17 C20".split()
 def sh(cmd): return subprocess.run(cmd, shell=True, capture_output=True, text=True)
 def clean(): return sh(f"git -C {REPO} status --porcelain --untracked-files=no").stdout.strip()==""
 assert clean()
-out={}
+import os.path
+out=json.load(open("/verif/seeded/MATRIX.json")) if os.path.exists("/verif/seeded/MATRIX.json") and sys.argv[1:] else {}
 items=[]
 for d in sorted(glob.glob("/verif/seeded/*/")):
     sid=os.path.basename(d.rstrip("/"))
-    items.append((f"seeded:{sid}", f"git -C {REPO} apply {d}patch.diff"))
+    items.append((f"seeded:{sid}", ("seed", d)))
 kf=json.load(open("/verif/known_findings.json"))
 commits=[]
 for f in kf["findings"]:
@@ -22,9 +23,15 @@ for c in commits:
 only=sys.argv[1:] 
 for name,cmd in items:
     if only and not any(o in name for o in only): continue
-    r=sh(cmd)
-    if r.returncode!=0:
-        out[name]={"error":r.stderr[:200]}; sh(f"git -C {REPO} checkout -- ."); continue
+    if isinstance(cmd, tuple):
+        import seedlib
+        okk, msg = seedlib.apply_seed(cmd[1])
+        if not okk:
+            out[name]={"error":msg}; sh(f"git -C {REPO} checkout -- ."); continue
+    else:
+        r=sh(cmd)
+        if r.returncode!=0:
+            out[name]={"error":r.stderr[:200]}; sh(f"git -C {REPO} checkout -- ."); continue
     row={}
     try:
         for cid in CHECKS:
